@@ -1,3 +1,7 @@
 import JominiModel.Props.C03
 open Jomini.Props.C03
 #print axioms C03_nextState_table
+#print axioms C03_plain_id_not_typed
+#print axioms C03_key_fastpath_sim
+#print axioms C03_iter_sim
+#print axioms C03_fast_eq_reference
